@@ -16,7 +16,7 @@ Record case := {
 Definition eclass_eqb (a b : eclass) : bool :=
   match a, b with
   | KArgument, KArgument | KAuthn, KAuthn | KAuthnAssertion, KAuthnAssertion | KAuthnScopes, KAuthnScopes
-  | KComm, KComm | KInternal, KInternal | KPanic, KPanic | KOther, KOther => true
+  | KComm, KComm | KInternal, KInternal | KPanic, KPanic | KOther, KOther | KOtherError, KOtherError => true
   | _, _ => false
   end.
 
